@@ -139,7 +139,11 @@ BisectForward(PG, VS, rd, begin, searched, end, endgran, endserial, list, vser, 
        ELSE LET h == FetchHeaders(PG, VS, SeekTo(f.rd, b.next), K) IN
             IF ~h.ok THEN [ok |-> FALSE, links |-> <<>>, rd |-> h.rd]
             ELSE LET ip == InitialPcm(PG, h.rd, h.vser, 0, -1, K, Len(PG) + 2)
-                     rest == BisectForward(PG, VS, ip.rd, b.next, ip.rd.off, end, endgran, endserial, h.list, h.vser, K, fuel - 1) IN
+                     \* where the search for the end of THIS link starts: behind its headers (h.rd.off, the repaired rule).  The pinned tree started
+                     \* where _initial_pcmoffset had stopped reading (K.searchfrom = "consumed"): for a link without any audio page that is behind
+                     \* the first page of the NEXT link, and the search never sees that link begin (refuted by TLC, VFOpen_MC_pinned_searchfrom.cfg)
+                     from == IF "searchfrom" \in DOMAIN K /\ K.searchfrom = "consumed" THEN ip.rd.off ELSE h.rd.off
+                     rest == BisectForward(PG, VS, ip.rd, b.next, from, end, endgran, endserial, h.list, h.vser, K, fuel - 1) IN
                  IF ~rest.ok THEN [ok |-> FALSE, links |-> <<>>, rd |-> rest.rd]
                  ELSE LET nx == rest.links[1]
                           nx2 == [nx EXCEPT !.doff = h.rd.off, !.first = ip.first, !.len = IF nx.len - ip.first < 0 THEN 0 ELSE nx.len - ip.first] IN
